@@ -78,6 +78,23 @@ CHECKS = {
             "rows, events a prefix, resume reaching tf with C03/C06 oracles and slope join, reset + rerun bit-equal to a fresh run; thorough adds configurations "
             "and double faults.",
             "Exhaustive over invocation positions of the enumerated short runs (N<=~450 each); call sites classified by frame walk; asynchronous interrupts not injected.", "4/C12"),
+    "C13": ("exploration", "reference-model monitor: random operation sequences on the real OdeSystem next to a freshly constructed twin; digests after every operation",
+            "Sequences over {integrate(), integrate(t), set dt/rtol/atol/method/tf, set_kick_vars, integrate with events, faulting integrate, reset} are executed "
+            "twice (bit-identical logs), the state right after reset() is checked for pristineness, everything after the last reset is compared bit-for-bit (rows, "
+            "events, dense output) with a new system built with the same constructor arguments and persistent settings, caller data (y0, constants) are compared "
+            "with private copies after every operation; split spans vs single span; a call at the target must change nothing.",
+            "Exploration; the kick mask in force is read from the system at reset time; class tableaus are checksummed per worker.", "4/C13"),
+    "C14": ("exploration", "runtime oracle from known sign structure on generated functions + icontract post-condition on the production root finder",
+            "11 function families (smooth, steep, multiple roots, jump, tangent, end-point roots, rootless) x scales 1e-6..1e9 x bracket order x tolerances eps..1e-3 x "
+            "float32/float64/longdouble x vectors of 1..16 mixed solvable/unsolvable components; sign change => success inside the bracket within tol_x of a sign "
+            "change; success => certified; no sign change and min|f|>tol => failure; vector agrees with scalar where the answer is determined; an icontract "
+            "post-condition records every production call made by real event detection.",
+            "Exploration; tol_x = max(tol,4eps)(1+|x|)+4ulp; the no-root sentinel inf with success=False is accepted.", "4/C14"),
+    "C17": ("exploration", "exhaustive small-scope reference-model check (numpy.searchsorted) + random cubics + icontract post-condition in situ",
+            "search_bisection / search_bisection_vec on ALL 501 strictly increasing arrays of length 1..7 over a 9-point grid and all 21 queries of the refined grid "
+            "(lists and ndarrays, three dtypes); CubicHermiteInterp end values/slopes bit-exact and random cubics (scalar, vector, matrix valued, both "
+            "orientations) reproduced to conditioning-scaled rounding inside and outside the interval, gradient = derivative; production look-ups checked in situ.",
+            "Exhaustive for the stated small scope (exhaustive:true), exploration for the cubics.", "4/C17"),
 }
 
 NOT_YET = {}
